@@ -33,13 +33,14 @@ GROUPS = [
 ] + [
     P('rep_transform_explicit' + sfx, 'transform', 'h_rep_transform', tu='src/repetition.cpp', roots=['gdstk::Repetition::transform'],
       enforce='Repetition__transform', harness='harness/c11.c', models=['models/libm_contracts.h', 'models/alloc_models.h'],
-      defines={'VF_FIXED_TYPE': t, 'VF_EXPLICIT_ONLY': 1}, unwind=4, kind='bounded', timeout=1500, disjoint_unions=['Repetition'],
+      defines={'VF_FIXED_TYPE': t, 'VF_EXPLICIT_ONLY': 1}, unwind=4, kind='bounded', timeout=3600, disjoint_unions=['Repetition'],
       apply_loop_contracts=False, loop_contracts_for=[], tier='thorough',
       bound='%s kind with a rotation: coordinate lists of 1..2 entries (loops unwound, unwinding assertions on), all doubles, both reflection states' % nm)
     for sfx, t, nm in [('x', 4, 'ExplicitX'), ('y', 5, 'ExplicitY')]
 ] + [
-    # ExplicitX / ExplicitY branches of Repetition::transform: (history)  CBMC mis-evaluates a[GK] when the pointer a is
-    # loaded from a union member (Repetition.coords.items): the tautology GK == 1 ==> a[GK] == a[1] FAILS (DESIGN.md 9.8).
+    # rep_transform_explicitx/y (thorough tier, ~28 min each): round 1 could not decide them (CBMC union-pointer limit, DESIGN 9.8, plus a
+    # pipeline defect: bounded groups got no ghost-entry snapshots); with disjoint_unions and the snapshot fix rep_transform_explicity
+    # discharges 1040/1040 obligations (round 2).
 ]
 def RP(name, fn, replace=(), **kw):
     d = dict(name='rpath_' + name, tu='src/robustpath.cpp', spec_headers=['spec/ghost.h', 'spec/geom_spec.h', 'spec/rpath_spec.h'],
@@ -81,6 +82,12 @@ GROUPS += [
       harness='harness/c10_fspine.c', replace_extern=[]),
     P('fpath_rotate', 'rotate', 'h_fpath_rotate', tu='src/flexpath.cpp', roots=['gdstk::FlexPath::rotate'], enforce='FlexPath__rotate',
       harness='harness/c10_fspine.c'),
+]
+_FP11 = [g for g in GROUPS if g['name'] == 'fpath_transform_11'][0]
+GROUPS += [
+    dict(_FP11, name='fpath_scale_11', roots=['gdstk::FlexPath::scale'], entry='h_fpath_scale', enforce='FlexPath__scale', replace_extern=[], replace_extern_if_called=['fabs']),
+    dict(_FP11, name='fpath_mirror_11', roots=['gdstk::FlexPath::mirror'], entry='h_fpath_mirror', enforce='FlexPath__mirror', replace_extern=[], replace_extern_if_called=[],
+         uf_fdiv=True, no_refine=True, tier='thorough', timeout=2400),
 ]
 TRUSTED_BASE = ['clang 14 AST', 'tools/cxx2c.py lowering', 'cbmc 6.11.0 (dfcc + SAT)', 'side-car contracts; spec/geom_spec.h']
 ASSUMPTIONS = ['cos and sin and the double operations + - * are uninterpreted functions (sound over-approximation: what holds for arbitrary functions holds for IEEE arithmetic)',
